@@ -221,7 +221,7 @@ class Run:
     pass
 
 
-def run(base, sc, plan=None, trace=False, timeout=60, umask=0o022):
+def run(base, sc, plan=None, trace=False, timeout=60, umask=0o022, **kw):
     """base: scratch dir; the sandbox root is base/R (recreated). Returns Run(before, after, model ans, result)."""
     root = base + '/R'
     subprocess.run(f'chmod -R u+rwx {root} 2>/dev/null; rm -rf {root}', shell=True)
@@ -234,6 +234,6 @@ def run(base, sc, plan=None, trace=False, timeout=60, umask=0o022):
     o.argv = argv(root, sc)
     aux = base + '/aux'
     os.makedirs(aux, exist_ok=True)
-    o.res = scen.run_xcp(aux, o.argv, cwd=real(root, sc.cwd), plan=plan, trace=trace or bool(plan), timeout=timeout, umask=umask)
+    o.res = scen.run_xcp(aux, o.argv, cwd=real(root, sc.cwd), plan=plan, trace=trace or bool(plan), timeout=timeout, umask=umask, **kw)
     o.after = snapshot_tokens(root, sc)
     return o
